@@ -642,5 +642,24 @@ class Check(common.Check):
     def shrink(self, case, fails):
         if 'ops' not in case:
             return case
-        ops = common.shrink_list(case['ops'], lambda o: fails(dict(case, ops=o)))
-        return dict(case, ops=ops)
+        ops = common.shrink_list(case['ops'], lambda o: fails(dict(case, ops=o)), max_steps=120)
+        case = dict(case, ops=ops)
+        if case['kind'] == 'cba':            # then the numbers: smaller partition / offset / reserved
+            budget = 40
+            for field in ('size', 'off', 'pos'):
+                lo = 1 if field == 'size' else 0
+                for v in list(range(lo, min(case[field], lo + 12))) + [case[field] // 2]:
+                    if budget <= 0 or v >= case[field]:
+                        break
+                    cand = dict(case, **{field: v})
+                    if field == 'off':     # keep raw addresses relative to the range
+                        delta = case['off'] - v
+                        cand['ops'] = [f'freeaddr {max(0, int(o.split()[1]) - delta)}'
+                                       if o.startswith('freeaddr') else o for o in case['ops']]
+                    if cand['pos'] >= cand['size']:
+                        continue
+                    budget -= 1
+                    if fails(cand):
+                        case = cand
+                        break
+        return case
